@@ -1090,6 +1090,27 @@ func (in *semit) exec(st *sstate, s ast.Stmt) ([]sout, error) {
 		if err != nil {
 			return nil, err
 		}
+		if xv.k == skArr {
+			// a fixed array whose elements hold symbolic values (a table built
+			// from the state): one iteration per element
+			elems := xv.elems
+			return in.runLoop(st, x.Body.List, s, func(st *sstate, i int) (bool, error) {
+				if i >= len(elems) {
+					return false, nil
+				}
+				if x.Key != nil {
+					if err := in.store(st, x.Key, conc(vInt(int64(i)))); err != nil {
+						return false, err
+					}
+				}
+				if x.Value != nil {
+					if err := in.store(st, x.Value, elems[i]); err != nil {
+						return false, err
+					}
+				}
+				return true, nil
+			}, nil)
+		}
 		if xv.k != skConc {
 			return nil, serr(s, "range over a symbolic value")
 		}
@@ -2214,6 +2235,13 @@ func (in *semit) evalBinary(st *sstate, n *ast.BinaryExpr) (sval, error) {
 		switch n.Op {
 		case token.ADD, token.SUB, token.MUL:
 			return sval{k: skUnk}, nil
+		}
+		switch n.Op {
+		case token.EQL, token.NEQ, token.LSS, token.LEQ, token.GTR, token.GEQ:
+			// a test on a number the model does not follow (the sizing value):
+			// both outcomes are explored under a fresh atom; it survives only
+			// if the results differ between them
+			return formulaVal(bAtom(fmt.Sprintf("U:%d", n.Pos()), "1")), nil
 		}
 		return sval{}, serr(n, "operator %s on an unknown number", n.Op)
 	}
